@@ -51,13 +51,13 @@ Definition rs_deccall_rows : list (list Z * list Z) :=
 Definition rs_checkex_rows : list (list Z * list Z) :=
   [ (rs_s2z "Relayer.decrementPending", rs_s2z "") ].
 
-(* relayItems.Get, statement by statement (= the model's [items_get]: nothing found -> no timer
+(* (statements that only take / release the items lock are not rows: one lock region is one
+   atomic action of the model, whatever the kind of lock)
+   relayItems.Get, statement by statement (= the model's [items_get]: nothing found -> no timer
    touched; found and stopTimeout false -> the item, no timer touched; else the item and the
    result of its timer's Stop) *)
 Definition rs_getbody_rows : list (list Z) :=
-  [ rs_s2z "r.RLock()";
-    rs_s2z "defer r.RUnlock()";
-    rs_s2z "item, ok := r.items[id]";
+  [ rs_s2z "item, ok := r.items[id]";
     rs_s2z "if !ok { return relayItem{}, false, false }";
     rs_s2z "if !stopTimeout { return item, false, true }";
     rs_s2z "return item, item.timeout.Stop(), true" ].
@@ -65,13 +65,11 @@ Definition rs_getbody_rows : list (list Z) :=
 (* relayItems.deleteTomb, statement by statement (= the model's [items_delete_tomb]: nothing
    there -> nothing; a non-tombstone -> nothing; a tombstone -> deleted, its timer released) *)
 Definition rs_tombbody_rows : list (list Z) :=
-  [ rs_s2z "r.Lock()";
-    rs_s2z "item, ok := r.items[id]";
+  [ rs_s2z "item, ok := r.items[id]";
     rs_s2z "if !ok { r.Unlock() r.logger.WithFields(LogField{""id"", id}).Warn(""Attempted to delete non-existent relay item."") return }";
     rs_s2z "if !item.tomb { r.Unlock() return }";
     rs_s2z "delete(r.items, id)";
     rs_s2z "r.tombs--";
-    rs_s2z "r.Unlock()";
     rs_s2z "item.timeout.Release()" ].
 
 (* the only scheduled collection of relay.go: Entomb schedules deleteTomb (label LGc) *)
